@@ -432,9 +432,9 @@ func rC02ConverterAgreement(w *World, r *Report) {
 		has := false
 		var others []string
 		for _, o := range ops {
-			if o == t.save || (t.field == "pStringM" && o == "call:strings.Cut") {
+			if o == t.save || (t.field == "pStringM" && (o == "call:strings.Cut" || o == "call:strings.Index" || o == "strslice")) {
 				has = true
-			} else if strings.HasPrefix(o, "call:strconv.") || o == "call:strings.Split" || o == "call:strings.Fields" {
+			} else if strings.HasPrefix(o, "call:strconv.") || o == "call:strings.Split" || o == "call:strings.Fields" || o == "call:strings.LastIndex" {
 				others = append(others, o)
 			}
 		}
@@ -606,6 +606,25 @@ func rC02SplitFirst(w *World, r *Report) {
 				ia, ok = u.X.(*ssa.IndexAddr)
 			}
 			if !ok {
+				// strings.Index + slicing: key = e[:i], value = e[i+1:] with i = strings.Index(e, "=")
+				if sl, isSl := v.(*ssa.Slice); isSl {
+					var iv ssa.Value
+					if wantIdx == 0 && sl.Low == nil {
+						iv = sl.High
+					}
+					if wantIdx == 1 && sl.High == nil {
+						if bo, isBo := sl.Low.(*ssa.BinOp); isBo && bo.Op == token.ADD {
+							if k, isK := constInt(bo.Y); isK && k == 1 {
+								iv = bo.X
+							}
+						}
+					}
+					if ic, isC := iv.(*ssa.Call); isC && calleeName(ic) == "strings.Index" && ic.Call.Args[0] == sl.X && isConstStr(ic.Call.Args[1], "=") {
+						if p := NewProv(w, fn).Slice(sl.X); len(p.OpKinds()) == 0 {
+							return
+						}
+					}
+				}
 				// strings.Cut results
 				if ex, isEx := v.(*ssa.Extract); isEx {
 					if c, isC := ex.Tuple.(*ssa.Call); isC && calleeName(c) == "strings.Cut" && int64(ex.Index) == wantIdx {
